@@ -62,6 +62,7 @@ type c02State struct {
 	existsEnd bool
 	listEnd   []string
 	runs2     int            // runs of a job scheduled by a "sched" action
+	runs2At   int64          // instant of the first of these runs (0: none)
 	runsX     map[string]int // runs of the extra jobs
 }
 
@@ -119,6 +120,13 @@ func c02Units(tier string) []hx.Unit {
 	scns = append(scns, c02Scn{name: "S6/cancel@-2,sched@-2", T: T, actions: []c02Action{{at: T - 2*sec, kind: "cancel", name: "J"}, {at: T - 2*sec, kind: "sched", name: "J"}}})
 	scns = append(scns, c02Scn{name: "S6/run@-1,sched@-1", T: T, actions: []c02Action{{at: T - sec, kind: "run", name: "J"}, {at: T - sec, kind: "sched", name: "J"}}})
 	scns = append(scns, c02Scn{name: "S6/sched@+0", T: T, actions: []c02Action{{at: T, kind: "sched", name: "J"}}})
+	// S6d: a run request at the very instant of the timer, and the name scheduled again at that instant too (the
+	// run request takes the job off the table before the job's own goroutine has noticed): the new job is a
+	// pending job like any other
+	scns = append(scns, c02Scn{name: "S6d/run@+0,sched@+0,exists@+3", T: T, horizon: T + 12*sec, bound: [2]int{1, 0},
+		actions: []c02Action{{at: T, kind: "run", name: "J"}, {at: T, kind: "sched6", name: "J"}, {at: T + 3*sec, kind: "exists", name: "J"}}})
+	scns = append(scns, c02Scn{name: "S6d/run@+0,sched@+0,cancel@+3", T: T, horizon: T + 12*sec, bound: [2]int{1, 0},
+		actions: []c02Action{{at: T, kind: "run", name: "J"}, {at: T, kind: "sched6", name: "J"}, {at: T + 3*sec, kind: "cancel2", name: "J"}}})
 	// S6b: the name is scheduled again while the first job, started early, is still executing; the new job is
 	// a pending job like any other: listed, cancellable, and it runs once if not cancelled
 	scns = append(scns, c02Scn{name: "S6b/run@-1/dur3,sched@+0,exists@+3", T: T, jobDur: 3 * sec, horizon: T + 12*sec,
@@ -224,7 +232,12 @@ func c02Body(sc *c02Scn, st *c02State) {
 			case "sched":
 				a.err = svc.ScheduleJob(ctx, "class", a.name, at(sc.T+2*sec), func(_ context.Context) { st.runs2++ })
 			case "sched6":
-				a.err = svc.ScheduleJob(ctx, "class", a.name, at(sc.T+6*sec), func(_ context.Context) { st.runs2++ })
+				a.err = svc.ScheduleJob(ctx, "class", a.name, at(sc.T+6*sec), func(_ context.Context) {
+					st.runs2++
+					if st.runs2At == 0 {
+						st.runs2At = mc.Now()
+					}
+				})
 			case "cancel2":
 				a.err = svc.CancelJob(ctx, a.name)
 			case "exists":
@@ -395,7 +408,7 @@ func c02Check(sc *c02Scn, st *c02State, r *mc.Result) mc.Verdict {
 					// scheduled at the very instant of a cancel request: it may have come first, when the name was still taken
 					early := false
 					for _, b := range st.acts {
-						if b.kind == "cancel" && b.at == a.at {
+						if (b.kind == "cancel" || b.kind == "run" || b.kind == "runif") && b.at == a.at {
 							early = true
 						}
 					}
@@ -406,10 +419,16 @@ func c02Check(sc *c02Scn, st *c02State, r *mc.Result) mc.Verdict {
 					return fail("name-not-reusable", "the name of a claimed, running one-off job cannot be scheduled again: "+a.err.Error())
 				}
 			case "exists":
+				if st.runs2At != 0 && st.runs2At <= a.at {
+					continue // a run request of the same instant has claimed the new job: it is no longer pending
+				}
 				if sched6 != nil && sched6.err == nil && (!a.ex || !a.ex2) {
 					return fail("pending-job-not-listed", "a pending job scheduled under a re-used name is not reported by JobExists / ListJobs")
 				}
 			case "cancel2":
+				if st.runs2At != 0 && st.runs2At <= a.at {
+					continue
+				}
 				if sched6 != nil && sched6.err == nil {
 					if a.err != nil {
 						return fail("pending-job-not-cancellable", "a pending job scheduled under a re-used name cannot be cancelled: "+a.err.Error())
